@@ -199,7 +199,7 @@ var propC03 = register(&Property{
 func genBandCase(rt *rapid.T, fams []int, cbs, lays, poss, rts []int, sizes int, virt bool, regimeW [3]int) *Case {
 	maxN, maxM, _ := sizeRegime(rt, regimeW[0], regimeW[1], regimeW[2])
 	n, ies, _ := genGraph(rt, GraphSpec{MaxN: maxN, MaxM: maxM, Families: fams, Union: true, SelfLoops: true, Parallel: true})
-	c := &Case{Edges: toEdges(ies, nid)}
+	c := &Case{Edges: toEdges(ies, nameScheme(rt))}
 	genOptions(rt, c, NodeIDs(c.Edges), OptSpec{CBs: cbs, Lays: lays, Poss: posFor(n, len(ies), poss), BKForced: true, Rts: rts,
 		Thorough: true, Virt: virt, Sizes: sizes, IntForNS: true, NSZero: true, LSZero: false, DefaultsOK: true})
 	return c
@@ -218,7 +218,7 @@ func genC03(rt *rapid.T, st *Stats) *Case {
 		// needs a 12-node structure - seeded/r2-m03 - was invisible to the small-graph regime)
 		n := rapid.IntRange(8, 30).Draw(rt, "n")
 		ies := genConnN(rt, n, rapid.IntRange(0, n+4).Draw(rt, "extra"))
-		c := &Case{Edges: toEdges(ies, nid)}
+		c := &Case{Edges: toEdges(ies, nameScheme(rt))}
 		genOptions(rt, c, NodeIDs(c.Edges), OptSpec{CBs: allCB, Lays: []int{LayNS, LayNS, LayLP}, Poss: posFor(n, len(ies), []int{PosVAlign, PosSink, PosPackRight, PosBK}), BKForced: true,
 			Rts: []int{RtNoop, RtStraight}, Thorough: true, Virt: false, Sizes: 0, NSZero: true, LSZero: false, DefaultsOK: true})
 		return c
@@ -290,7 +290,7 @@ func genC04(rt *rapid.T, st *Stats) *Case {
 	w := regimeW([3]int{900, 95, 5}, [3]int{750, 220, 30})
 	maxN, maxM, _ := sizeRegime(rt, w[0], w[1], w[2])
 	n, ies, _ := genGraph(rt, GraphSpec{MaxN: maxN, MaxM: maxM, Families: allFam, Union: true, SelfLoops: true, Parallel: true})
-	c := &Case{Edges: toEdges(ies, nid)}
+	c := &Case{Edges: toEdges(ies, nameScheme(rt))}
 	poss := sizeAwarePos
 	if n > 12 || len(ies) > 24 {
 		poss = []int{PosSink, PosVAlign, PosPackRight}
@@ -402,7 +402,7 @@ func genC05(rt *rapid.T, st *Stats) *Case {
 	} else {
 		n, ies, _ = genGraph(rt, gs)
 	}
-	c := &Case{Edges: toEdges(ies, nid)}
+	c := &Case{Edges: toEdges(ies, nameScheme(rt))}
 	genOptions(rt, c, NodeIDs(c.Edges), OptSpec{CBs: allCB, Lays: allLay, Poss: posFor(n, len(ies), allPos), BKForced: true, Rts: []int{RtPolyline, RtStraight, RtOrtho, RtSplines},
 		Thorough: false, Virt: true, Sizes: 0, IntForNS: false, NSZero: true, LSZero: false, DefaultsOK: true})
 	avoidK3(rt, c, st, n > 24, []int{RtPolyline, RtStraight, RtOrtho})
@@ -484,7 +484,7 @@ var propC06 = register(&Property{
 func genC06(rt *rapid.T, st *Stats) *Case {
 	maxN, maxM, _ := sizeRegime(rt, 900, 95, 5)
 	n, ies, _ := genGraph(rt, GraphSpec{MaxN: maxN, MaxM: maxM, Families: []int{FamConn, FamLadder, FamMotif, FamDag, FamMulti}, Union: true, SelfLoops: true, Parallel: true})
-	c := &Case{Edges: toEdges(ies, nid)}
+	c := &Case{Edges: toEdges(ies, nameScheme(rt))}
 	poss := posFor(n, len(ies), sizeAwarePos)
 	genOptions(rt, c, NodeIDs(c.Edges), OptSpec{CBs: allCB, Lays: allLay, Poss: poss, Rts: []int{RtPolyline, RtStraight, RtOrtho, RtSplines},
 		Thorough: false, Virt: true, Sizes: 1, IntForNS: true, NSZero: true, LSZero: false, DefaultsOK: true})
